@@ -70,8 +70,8 @@ class Judge:
     # it is interrupted and re-executed under the deterministic line budget of vlib.core (HANG_LINES executed
     # lines inside desper).  Only exceeding that budget is a verdict ("does not terminate"); from then on every
     # case of this process runs under the budget so that shrinking does not wait for the alarm again.
-    CASE_WALL = 20.0
-    HANG_LINES = 3000000
+    CASE_WALL = 45.0
+    HANG_LINES = 6000000
 
     def _guarded(self, case):
         if self.budget_mode:
